@@ -1,5 +1,6 @@
 import Pep508.Driver.Marker
 import Pep508.Model.MarkerParse
+import Pep508.Model.ReqParse
 namespace Pep508.Driver
 open Pep508
 
@@ -42,7 +43,7 @@ def showWarns (ws : List WarnKind) : String :=
 
 def parseExtArgs (alpha : String) (entries : List String) : Option Ext := do
   let a ← charsOfHex alpha
-  let es ← (entries.filter (· ≠ "")).mapM parseExtEntry
+  let es ← (entries.filter (fun e => e ≠ "" && e ≠ "-")).mapM parseExtEntry
   pure (mkExt a es)
 
 /-- `mparse <text> <alpha> <entries…>` ↦ `ok <dump> w=<kinds>` | `err <start> <len>` | `panic` -/
@@ -90,6 +91,76 @@ def runEparse (args : List String) : String :=
       | .err e => s!"err {e.start} {e.len}"
       | .panic s => s!"panic {s}"
     | _, _ => "bad-op"
+  | _ => "bad-op"
+
+end Pep508.Driver
+
+namespace Pep508.Driver
+open Pep508
+
+def hexOfChars (s : List Char) : String := hexOfBytes' (bytesOfString (String.ofList s))
+
+def showErrKind : ErrKind → String
+  | .string => "string" | .url => "url" | .unsupported => "unsupported"
+
+def showCall : ExtCall → String
+  | .spec t s l => s!"s:{hexOfChars t}:{s}:{l}"
+  | .url t s l => s!"u:{hexOfChars t}:{s}:{l}"
+
+def parseProcEnv (vars cwd : String) : Option ProcEnv := do
+  let cwd ← charsOfHex cwd
+  let vs ← if vars == "-" then some [] else
+    (vars.splitOn ",").mapM fun kv =>
+      match kv.splitOn "=" with
+      | [k, v] => do let v ← charsOfHex v; pure (k.toList, v)
+      | _ => none
+  pure ⟨vs, cwd⟩
+
+def showReqKind : ReqKind → String
+  | .none => "none"
+  | .specs ts => s!"specs:{ts.length}"
+  | .url _ => "url"
+
+/-- `req <text> <alpha> <table> <vars> <cwd>` ↦ `calls=… <TAB> then=…` (stage 1, see harness post-processing) -/
+def runReq (args : List String) : String :=
+  match args with
+  | [text, alpha, table, vars, cwd] =>
+    match charsOfHex text, parseExtArgs alpha (table.splitOn " "), parseProcEnv vars cwd with
+    | some t, some x, some env =>
+      let out := parseRequirement env x t
+      let calls := if out.calls.isEmpty then "-" else ",".intercalate (out.calls.map showCall)
+      let fin := match out.fin with
+        | .ok r =>
+          let extras := if r.extras.isEmpty then "-" else ";".intercalate (r.extras.map hexOfBytes')
+          s!"ok name={hexOfBytes' r.name} extras={extras} kind={showReqKind r.kind} marker={dumpTree r.marker} w={showWarns r.warns}"
+        | .err e => s!"err {showErrKind e.kind} {e.start} {e.len}"
+        | .panic s => s!"panic {s}"
+        | .urlEnds alts other =>
+          "urlends " ++ " ".intercalate (alts.map fun (ce : Char × PErr) => s!"{ce.1.toNat}:{showErrKind ce.2.kind}:{ce.2.start}:{ce.2.len}") ++
+            s!" else:{showErrKind other.kind}:{other.start}:{other.len}"
+      s!"calls={calls}\tthen={fin}"
+    | _, _, _ => "bad-op"
+  | _ => "bad-op"
+
+/-- `expand <text> <vars> <cwd>`: `expand_env_vars` -/
+def runExpand (args : List String) : String :=
+  match args with
+  | [text, vars, cwd] =>
+    match charsOfHex text, parseProcEnv vars cwd with
+    | some t, some env => hexOfChars (expandEnvVars env t)
+    | _, _ => "bad-op"
+  | _ => "bad-op"
+
+/-- `urlhelpers <text>`: split_scheme / split_extras / looks_like_archive -/
+def runUrlHelpers (args : List String) : String :=
+  match args with
+  | [text] =>
+    match charsOfHex text with
+    | some t =>
+      let sch := match splitScheme t with | some (a, b) => s!"{hexOfChars a}:{hexOfChars b}" | none => "none"
+      let ext := match splitExtras t with | some (a, b) => s!"{hexOfChars a}:{hexOfChars b}" | none => "none"
+      s!"scheme={sch} extras={ext} archive={if looksLikeArchive t then 1 else 0}"
+    | none => "bad-op"
   | _ => "bad-op"
 
 end Pep508.Driver
